@@ -47,7 +47,7 @@ def strategy(tier):
     ret = st.builds(lambda v: {'target': 'ret', 'value': v}, st.one_of(_val, st.sampled_from([None, False, 0, 0.0, '', [], {}, {'__tuple__': []}])))
     byt = st.builds(lambda n, j: {'target': 'bytes', 'n': max(0, n + j)}, st.one_of(st.sampled_from(_SIZES), st.sampled_from(_SIZES[4:]), st.integers(0, 300000)),
                     st.integers(-3, 3))
-    exc = st.builds(lambda k, a: {'target': 'raise', 'exc': k, 'args': a}, st.sampled_from(['ValueError', 'KeyError', 'Custom']),
+    exc = st.builds(lambda k, a: {'target': 'raise', 'exc': k, 'args': a}, st.sampled_from(['ValueError', 'KeyError', 'Custom', 'BrokenPipeError', 'ConnectionResetError', 'EOFError', 'OSError', 'TimeoutError', 'StopIteration', 'AssertionError']),
                     st.lists(st.one_of(st.integers(0, 9), st.text(max_size=4)), max_size=3))
     ech = st.builds(lambda a, k: {'target': 'echo', 'args': a, 'kwargs': k}, st.lists(_val, max_size=3), st.dictionaries(st.sampled_from(['a', 'b', 'c']), _val, max_size=2))
     base = st.one_of(ret, byt, byt, byt, exc, ech)
@@ -219,6 +219,18 @@ def run_case(case, ctx):
                 pass
     out.obs = {'direct': direct[0], 'size': size, 'kinds': {k: (v[0], type(v[1]).__name__, type(v[2]).__name__) for k, v in results.items()}}
     return out
+
+
+def setup_shard(ctx):
+    # Pool creates its workers through PersistentWorker.create(...): do the same once per type so that the one-shot factory is
+    # exercised in a process where the persistent factory has already been used
+    from pyworkers.persistent import PersistentWorker
+    from pyworkers.worker import WorkerType
+    srv = IC.server(ctx)
+    for wt in (WorkerType.THREAD, WorkerType.PROCESS, WorkerType.REMOTE):
+        kw = {'host': srv.addr} if wt == WorkerType.REMOTE else {}
+        w = bounded(PersistentWorker.create, 30, wt, vtargets.sq, **kw)
+        bounded(w.wait, 30, 10)
 
 
 def teardown_shard(ctx):
